@@ -17,7 +17,7 @@ pub fn load_supported(path: &str) -> Arc<BTreeSet<String>> {
 
 /// One generated run, in the common worker result format.
 pub fn worker_run(seed: u64, k: u64, profile: &'static str, supported: Arc<BTreeSet<String>>, known_sigs: &[(String, String)], discover: bool) -> J {
-  let (plan, res) = run::execute_generated(seed, k, profile, supported.clone());
+  let (plan, res) = run::execute_generated(seed, k, profile, supported.clone(), known_sigs);
   let mut counters = serde_json::Map::new();
   counters.insert("steps".into(), json!(res.stats.ops));
   for (f, n) in &res.stats.faults_fired { counters.insert(format!("fault:{}", f), json!(n)); }
@@ -25,14 +25,17 @@ pub fn worker_run(seed: u64, k: u64, profile: &'static str, supported: Arc<BTree
   let fired: u64 = res.stats.faults_fired.values().sum();
   counters.insert("runs_with_fault_fired".into(), json!((fired > 0) as u64));
   let mut violations = vec![];
+  for kh in &res.known_hits {
+    // known findings travel without replay payload; the parent only counts and prints them
+    violations.push(json!({"properties": kh.properties, "class": kh.class, "signature": kh.signature, "summary": format!("run {}: `{}`", k, kh.op_text), "replay": J::Null}));
+  }
   if let Some(v) = &res.violation {
     let mine = v.properties.iter().any(|p| p == profile);
-    let is_known = known_sigs.iter().any(|(p, s)| v.properties.contains(p) && crate::check::sig_matches(s, &v.signature));
     let mut ops = res.ops.clone();
     let mut final_res = None;
-    if mine && !is_known {
-      let min = run::minimise(&res.ops, plan.hash_seed, &v.signature, &v.properties, supported.clone());
-      let r2 = run::execute_explicit(min.clone(), plan.hash_seed, v.properties.clone(), supported.clone());
+    if mine {
+      let min = run::minimise(&res.ops, plan.hash_seed, &v.signature, &v.properties, supported.clone(), known_sigs);
+      let r2 = run::execute_explicit(min.clone(), plan.hash_seed, v.properties.clone(), supported.clone(), known_sigs);
       if r2.violation.as_ref().map(|x| x.signature == v.signature).unwrap_or(false) { ops = min; final_res = Some(r2); }
     }
     let shown = final_res.as_ref().unwrap_or(&res);
